@@ -127,7 +127,7 @@ def parse_output(out):
 
 UNDECIDED_CHECK_PAT = (
     'unwinding assertion',
-    'is not currently supported by Kani',
+    'is not currently supported by kani',
     'unsupported',
     'recursion unwinding',
 )
